@@ -168,14 +168,14 @@ pub fn header_sweeps() -> Vec<(String, Vec<u8>)> {
 
 pub fn run_history(cfg: &SrvCfg, hist: &[usize], al: &[(&'static str, Vec<Vec<u8>>)]) -> Result<Option<(String, String)>, String> {
     let mut p = Prober::new(cfg)?;
-    let mut clients: Vec<Client> = vec![];
+    let mut clients: Vec<(Client, &'static str)> = vec![];
     for (k, &a) in hist.iter().enumerate() {
         for d in &al[a].1 {
             let c = Client::new();
             if !c.send(p.srv.addr, d) {
                 return Err("send failed".into());
             }
-            clients.push(c);
+            clients.push((c, al[a].0));
         }
         // step after every class: each class is its own poll cycle
         if let Err(pn) = p.srv.step() {
@@ -185,7 +185,21 @@ pub fn run_history(cfg: &SrvCfg, hist: &[usize], al: &[(&'static str, Vec<Vec<u8
     if let Err(pn) = p.srv.settle() {
         return Ok(Some(("panic".into(), format!("process_events panicked while idle: {}", pn))));
     }
+    if let Some(v) = valid_ones_answered(&clients) {
+        return Ok(Some(v));
+    }
     sentinels(&mut p)
+}
+
+/// The valid requests of the sequence itself (classes named "...valid-...") have been answered by the
+/// time the server is quiescent — whatever was queued in front of, between or behind them.
+fn valid_ones_answered(clients: &[(Client, &'static str)]) -> Option<(String, String)> {
+    for (i, (c, class)) in clients.iter().enumerate() {
+        if class.contains("valid-") && c.drain().is_empty() {
+            return Some(("valid-request-unanswered".into(), format!("datagram #{} of the sequence (class {}) is a valid request and got no reply although the server went quiescent", i, class)));
+        }
+    }
+    None
 }
 
 /// After the sequence: a pair of valid requests of each protocol queued together (so that a batch
@@ -223,16 +237,19 @@ fn sentinels(p: &mut Prober) -> Result<Option<(String, String)>, String> {
 /// Same but all datagrams queued before the first step (one poll cycle sees the whole sequence).
 pub fn run_history_burst(cfg: &SrvCfg, hist: &[usize], al: &[(&'static str, Vec<Vec<u8>>)]) -> Result<Option<(String, String)>, String> {
     let mut p = Prober::new(cfg)?;
-    let mut clients: Vec<Client> = vec![];
+    let mut clients: Vec<(Client, &'static str)> = vec![];
     for &a in hist.iter() {
         for d in &al[a].1 {
             let c = Client::new();
             c.send(p.srv.addr, d);
-            clients.push(c);
+            clients.push((c, al[a].0));
         }
     }
     if let Err(pn) = p.srv.settle() {
         return Ok(Some(("panic".into(), format!("process_events panicked on queued sequence: {}", pn))));
+    }
+    if let Some(v) = valid_ones_answered(&clients) {
+        return Ok(Some(v));
     }
     sentinels(&mut p)
 }
